@@ -1,10 +1,16 @@
 """C08 — decoding, pseudo-expansion and constant folding follow RV32IM."""
 import random
 
-from common import (DRIVER, RVH_DEBUG, RVH_RELEASE, diff_blocks, proof_stage, run_lines,
+import os, sys, re
+sys.path.insert(0, os.path.join(os.path.dirname(__file__), "..", "gen"))
+from common import (DRIVER, RVH_DEBUG, RVH_RELEASE, diff_blocks, hx, proof_stage, run_lines,
                     run_lines_isolated)
+from pipeline import correspondence, field
+import asm
 
 THEOREMS = [
+    "Rva.mathOp_table_correct", "Rva.mathOp_table_only", "Rva.scalarOp_table_correct",
+    "Rva.format_table_correct", "Rva.mnemonics_nodup", "Rva.reg_alias",
     "Rva.operate_rv32", "Rva.mulh_product_exact", "Rva.mulhsu_product_exact",
     "Rva.operate_add", "Rva.operate_sll", "Rva.operate_sra", "Rva.operate_mulhu",
     "Rva.operate_div", "Rva.operate_rem",
@@ -81,9 +87,210 @@ def gen_operate(rng, n_random):
     return reqs
 
 
+R_OPS = {"add": "add", "sub": "sub", "and": "and", "or": "or", "xor": "xor", "sll": "sll", "srl": "srl",
+         "sra": "sra", "slt": "slt", "sltu": "sltu", "mul": "mul", "mulh": "mulh", "mulhsu": "mulhsu",
+         "mulhu": "mulhu", "div": "div", "divu": "divu", "rem": "rem", "remu": "remu"}
+I_OPS = {"addi": "add", "andi": "and", "ori": "or", "xori": "xor", "slli": "sll", "srli": "srl",
+         "srai": "sra", "slti": "slt", "sltiu": "sltu"}
+
+
+def fold_programs(rng, n):
+    """Programs whose last instruction must be folded to a known constant by the real pipeline."""
+    out = []
+    vals = GRID + [rng.randrange(-2**31, 2**31) for _ in range(6)]
+    for m, op in list(R_OPS.items()) + list(I_OPS.items()):
+        for _ in range(n):
+            x, y = rng.choice(vals), rng.choice(vals)
+            if m in I_OPS:
+                src = f"main:\n li t0, {x}\n {m} t2, t0, {y}\n mv a0, t2\n li a7, 93\n ecall\n"
+            else:
+                src = f"main:\n li t0, {x}\n li t1, {y}\n {m} t2, t0, t1\n mv a0, t2\n li a7, 93\n ecall\n"
+            out.append((m, op, x, y, src))
+    return out
+
+
+def s32(v):
+    v %= 2**32
+    return v - 2**32 if v >= 2**31 else v
+
+
+def official(m, ops):
+    """Official meaning of a well-formed statement: (kind, inst, fields) per the RISC-V assembly
+    manual (pseudo-instructions by their listed expansion)."""
+    def R(x): return oracles_reg(x)
+    k = m.lower()
+    if k in ("mv",): return ("Arith|IArith", None, {"rd": R(ops[0])})
+    return None
+
+
+def oracles_reg(name):
+    import oracles
+    return oracles.REG_NAMES.get(name)
+
+
+# pseudo-instruction -> (base instruction, operand permutation) per the RISC-V assembly manual
+PSEUDO = {
+    "nop": ("IArith", "Addi", lambda o: dict(rd=0, rs1=0, imm=0)),
+    "li": ("IArith", "Addi", lambda o: dict(rd=o[0], rs1=0, imm=o[1])),
+    "neg": ("Arith", "Sub", lambda o: dict(rd=o[0], rs1=0, rs2=o[1])),
+    "not": ("IArith", "Xori", lambda o: dict(rd=o[0], rs1=o[1], imm=-1)),
+    "seqz": ("IArith", "Sltiu", lambda o: dict(rd=o[0], rs1=o[1], imm=1)),
+    "snez": ("Arith", "Sltu", lambda o: dict(rd=o[0], rs1=0, rs2=o[1])),
+    "sltz": ("Arith", "Slt", lambda o: dict(rd=o[0], rs1=o[1], rs2=0)),
+    "sgtz": ("Arith", "Slt", lambda o: dict(rd=o[0], rs1=0, rs2=o[1])),
+    "beqz": ("Branch", "Beq", lambda o: dict(rs1=o[0], rs2=0, name=o[1])),
+    "bnez": ("Branch", "Bne", lambda o: dict(rs1=o[0], rs2=0, name=o[1])),
+    "blez": ("Branch", "Bge", lambda o: dict(rs1=0, rs2=o[0], name=o[1])),
+    "bgez": ("Branch", "Bge", lambda o: dict(rs1=o[0], rs2=0, name=o[1])),
+    "bltz": ("Branch", "Blt", lambda o: dict(rs1=o[0], rs2=0, name=o[1])),
+    "bgtz": ("Branch", "Blt", lambda o: dict(rs1=0, rs2=o[0], name=o[1])),
+    "bgt": ("Branch", "Blt", lambda o: dict(rs1=o[1], rs2=o[0], name=o[2])),
+    "ble": ("Branch", "Bge", lambda o: dict(rs1=o[1], rs2=o[0], name=o[2])),
+    "bgtu": ("Branch", "Bltu", lambda o: dict(rs1=o[1], rs2=o[0], name=o[2])),
+    "bleu": ("Branch", "Bgeu", lambda o: dict(rs1=o[1], rs2=o[0], name=o[2])),
+    "j": ("JumpLink", "Jal", lambda o: dict(rd=0, name=o[0])),
+    "call": ("JumpLink", "Jal", lambda o: dict(rd=1, name=o[0])),
+    "jr": ("JumpLinkR", "Jalr", lambda o: dict(rd=0, rs1=o[0], imm=0)),
+    "ret": ("JumpLinkR", "Jalr", lambda o: dict(rd=0, rs1=1, imm=0)),
+    "la": ("LoadAddr", "La", lambda o: dict(rd=o[0], name=o[1])),
+}
+
+
+def decode_cases(rng):
+    """(statement text, expected kind, expected inst, expected fields)"""
+    import oracles
+    regs = ["zero", "ra", "sp", "t0", "s1", "a0", "a7", "x31", "t6", "s11", "x5", "fp"]
+    imms = [("0", 0), ("-1", -1), ("2047", 2047), ("-2048", -2048), ("0x10", 16), ("0b101", 5), ("'a'", 97)]
+    cases = []
+    rn = lambda r: oracles.REG_NAMES[r]
+    for m in asm.ARITH:
+        if m.capitalize() in ("Addw", "Sllw", "Sraw", "Srlw", "Divw", "Remw", "Remuw"):
+            continue
+        for _ in range(4):
+            a, b, c = rng.choice(regs), rng.choice(regs), rng.choice(regs)
+            cases.append((f"{m} {a}, {b}, {c}", "Arith", m.capitalize(), dict(rd=rn(a), rs1=rn(b), rs2=rn(c))))
+    for m in ["addi", "andi", "ori", "xori", "slli", "srli", "srai", "slti", "sltiu"]:
+        for _ in range(4):
+            a, b = rng.choice(regs), rng.choice(regs)
+            t, v = rng.choice(imms)
+            cases.append((f"{m} {a}, {b}, {t}", "IArith", m.capitalize(), dict(rd=rn(a), rs1=rn(b), imm=v)))
+    for m in asm.BRANCH:
+        a, b = rng.choice(regs), rng.choice(regs)
+        cases.append((f"{m} {a}, {b}, lbl", "Branch", m.capitalize(), dict(rs1=rn(a), rs2=rn(b), name="lbl")))
+    for m in ["lb", "lbu", "lh", "lhu", "lw"]:
+        a, b = rng.choice(regs), rng.choice(regs)
+        t, v = rng.choice(imms)
+        cases.append((f"{m} {a}, {t}({b})", "Load", m.capitalize(), dict(rd=rn(a), rs1=rn(b), imm=v)))
+        cases.append((f"{m} {a}, ({b})", "Load", m.capitalize(), dict(rd=rn(a), rs1=rn(b), imm=0)))
+    for m in asm.STORE:
+        a, b = rng.choice(regs), rng.choice(regs)
+        t, v = rng.choice(imms)
+        cases.append((f"{m} {a}, {t}({b})", "Store", m.capitalize(), dict(rs2=rn(a), rs1=rn(b), imm=v)))
+        cases.append((f"{m} {a}, ({b})", "Store", m.capitalize(), dict(rs2=rn(a), rs1=rn(b), imm=0)))
+    for t, v in imms[:5]:
+        a = rng.choice(regs)
+        cases.append((f"lui {a}, {t}", "IArith", "Lui", dict(rd=rn(a), rs1=0, imm=s32(v << 12))))
+    a, b = rng.choice(regs), rng.choice(regs)
+    cases.append((f"jal {a}, lbl", "JumpLink", "Jal", dict(rd=rn(a), name="lbl")))
+    cases.append(("jal lbl", "JumpLink", "Jal", dict(rd=1, name="lbl")))
+    cases.append((f"jalr {a}, {b}, 4", "JumpLinkR", "Jalr", dict(rd=rn(a), rs1=rn(b), imm=4)))
+    cases.append((f"jalr {a}, 8({b})", "JumpLinkR", "Jalr", dict(rd=rn(a), rs1=rn(b), imm=8)))
+    cases.append((f"jalr {b}", "JumpLinkR", "Jalr", dict(rd=1, rs1=rn(b), imm=0)))
+    for m in ("ecall", "ebreak", "uret"):
+        cases.append((m, "Basic", m.capitalize(), {}))
+    for m, (kind, inst, f) in PSEUDO.items():
+        for _ in range(3):
+            a, b = rng.choice(regs), rng.choice(regs)
+            t, v = rng.choice(imms)
+            if m in ("nop", "ret"):
+                o, txt = [], m
+            elif m == "li":
+                o, txt = [rn(a), v], f"{m} {a}, {t}"
+            elif m in ("neg", "not", "seqz", "snez", "sltz", "sgtz"):
+                o, txt = [rn(a), rn(b)], f"{m} {a}, {b}"
+            elif m in ("beqz", "bnez", "blez", "bgez", "bltz", "bgtz"):
+                o, txt = [rn(a), "lbl"], f"{m} {a}, lbl"
+            elif m in ("bgt", "ble", "bgtu", "bleu"):
+                o, txt = [rn(a), rn(b), "lbl"], f"{m} {a}, {b}, lbl"
+            elif m in ("j", "call"):
+                o, txt = ["lbl"], f"{m} lbl"
+            elif m == "jr":
+                o, txt = [rn(a)], f"{m} {a}"
+            elif m == "la":
+                o, txt = [rn(a), "lbl"], f"{m} {a}, lbl"
+            cases.append((txt, kind, inst, f(o)))
+    # mv: official addi rd, rs, 0; the code uses add rd, rs, x0 — same value (C08 asks for the
+    # same *result*); both forms are accepted here
+    a, b = rng.choice(regs), rng.choice(regs)
+    cases.append((f"mv {a}, {b}", "MV", None, dict(rd=rn(a), rs=rn(b))))
+    return cases
+
+
+def check_decode(line, kind, inst, fields):
+    from common import unhx
+    p = line.split()
+    if len(p) < 4 or p[0] != "NODE":
+        return f"no node built: {line}"
+    k, i = p[2], p[3]
+    got = {}
+    for key in ("rd", "rs1", "rs2", "imm", "name"):
+        v = field(line, key)
+        if v is not None:
+            v = v.split("/")[0]
+            got[key] = unhx(v) if key == "name" else int(v)
+    if kind == "MV":
+        ok = (k == "Arith" and i == "Add" and got.get("rd") == fields["rd"] and
+              ((got.get("rs1") == fields["rs"] and got.get("rs2") == 0) or
+               (got.get("rs2") == fields["rs"] and got.get("rs1") == 0))) or \
+             (k == "IArith" and i == "Addi" and got.get("rd") == fields["rd"] and
+              got.get("rs1") == fields["rs"] and got.get("imm") == 0)
+        return None if ok else f"mv decoded as {k} {i} {got}"
+    if k != kind or i != inst:
+        return f"decoded as {k} {i}, manual says {kind} {inst}"
+    for key, v in fields.items():
+        if got.get(key) != v:
+            return f"{kind} {inst}: field {key} is {got.get(key)}, manual says {v}"
+    return None
+
+
 def run(res, tier, seed):
     rng = random.Random(seed)
-    proof_ok = proof_stage(res, "Rva.Proofs.C08", THEOREMS)
+    proof_ok = proof_stage(res, "Rva.Proofs.C08", THEOREMS, extra_modules=["Rva.Proofs.Tables"])
+    extra_first = None
+    # --- decoding and pseudo-expansion against the manual (all mnemonics x forms)
+    dcases = decode_cases(rng)
+    dreqs = [f"parse 1 {hx('m.s')} {hx(t + chr(10))}" for t, _, _, _ in dcases]
+    dimpl = run_lines_isolated(RVH_DEBUG, dreqs, chunk=500)
+    dmodel = run_lines(DRIVER, dreqs)
+    for (t, kind, inst, fields), a, m in zip(dcases, dimpl, dmodel):
+        node = a[1] if len(a) > 1 else (a[0] if a else "")
+        e = check_decode(node, kind, inst, fields)
+        if e and extra_first is None:
+            extra_first = {"statement": t, "what": e, "impl": a, "model": m,
+                           "replay_cmd": f"echo 'parse 1 {hx('m.s')} {hx(t + chr(10))}' | {RVH_DEBUG}"}
+        if a != m and extra_first is None:
+            extra_first = {"statement": t, "what": "parser model and implementation disagree", "impl": a,
+                           "model": m, "no_input": True}
+    # --- folding through the real pipeline (math_op table + operate + rule)
+    fcases = fold_programs(rng, 3 if tier == "quick" else 40)
+    freqs = [f"pipe facts 1 {hx('m.s')} {hx(src)}" for *_, src in fcases]
+    fimpl = run_lines_isolated(RVH_DEBUG, freqs, chunk=200)
+    for (m_, op, x, y, src), blk in zip(fcases, fimpl):
+        want = py_rv32(op, x, s32(y) if True else y)
+        if m_ in I_OPS:
+            want = py_rv32(op, x, y)
+        # the mv node (index 3 or 4) has t2's value in its reg-in map
+        claims = [l for l in blk if l.startswith("FACT") and " ri={" in l and "7=c:" in l.split(" ro=")[0]]
+        if not claims:
+            if extra_first is None:
+                extra_first = {"statement": src, "what": f"{m_} {x},{y} not folded to a constant", "impl": blk[:8]}
+            continue
+        got = int(re.search(r"[{,]7=c:(-?\d+)", claims[0].split(" ro=")[0]).group(1))
+        if got != want and extra_first is None:
+            extra_first = {"statement": src, "what": f"{m_} {x},{y} folded to {got}, RV32IM gives {want}",
+                           "replay_cmd": f"echo 'pipe facts 1 {hx('m.s')} {hx(src)}' | {RVH_DEBUG}"}
+    res.notes["decode_cases"] = len(dcases)
+    res.notes["fold_programs"] = len(fcases)
 
     cases = gen_operate(rng, 400 if tier == "quick" else 20000)
     reqs = [f"operate {o} {x} {y}" for o, x, y in cases]
@@ -115,6 +322,11 @@ def run(res, tier, seed):
                        "Python RV32IM oracle; a case is distinct by (op,x,y)" % (len(GRID), len(GRID)))
     res.cov["samples"] = [f"operate {o} {x} {y}" for o, x, y in cases[:3] + cases[-3:]]
     res.cov["traces_validated_against_impl"] = len(reqs) * 2
+    if extra_first is not None and not extra_first.get("no_input"):
+        res.violation("decoding/folding differs from the manual: " + extra_first["what"], extra_first)
+    elif extra_first is not None:
+        res.violation("parser correspondence broken; no statement found that is decoded against the manual",
+                      extra_first, no_input=True)
     if first is not None:
         res.violation(f"constant folding differs from RV32IM: {first['op']} {first['x']} {first['y']} "
                       f"[{first['profile']}] impl={first['impl']} expected={first['rv32']}", first)
